@@ -1,9 +1,10 @@
 ------------------------- MODULE ConstraintFlowEmit -------------------------
 (* Emission wrapper: every completed function of the generator as one JSON line (decl, toks) with two statistics *)
-(* of the Impl model on it: fake definition nodes created, constraints dropped by the origin guard.               *)
+(* of the Impl model on it: fake definition nodes created, constraints dropped by the origin guard, fake nodes     *)
+(* overwritten (same statement, same Constraint object).                                                          *)
 EXTENDS ConstraintFlow, Json
-EmitFlow == FDone => LET st == ImplRun(FCase) IN PrintT(ToJson([decl |-> fdecl, toks |-> fprog, fakes |-> Len(st.fk), drops |-> st.dr]))
+EmitFlow == FDone => LET st == ImplRun(FCase) IN PrintT(ToJson([decl |-> fdecl, toks |-> fprog, fakes |-> Len(st.fk), drops |-> st.dr, overwritten |-> st.ov]))
 \* the same emission and the invariant InvFlow in one evaluation of the Impl model
 InvFlowEmit == FDone => LET st == ImplRun(FCase)
-                        IN PrintT(ToJson([decl |-> fdecl, toks |-> fprog, fakes |-> Len(st.fk), drops |-> st.dr])) /\ FlowImplOKSt(FCase, st, FALSE)
+                        IN PrintT(ToJson([decl |-> fdecl, toks |-> fprog, fakes |-> Len(st.fk), drops |-> st.dr, overwritten |-> st.ov])) /\ FlowImplOKSt(FCase, st, FALSE)
 =============================================================================
